@@ -241,7 +241,24 @@ let judge op args got =
             if okb (next_up_check x lim (z un, z ud)) && okb (next_down_check x lim (z dn, z dd)) then pass ~extra:"cls=farey" ()
             else fail "farey-neighbours"
         | _ -> fail "ok up down")
-  | "qtof64" | "ftof64" -> (
+  | "ftof64" -> (
+      (* open finding F06: where the internal base-2 conversion hands over more bits than the target
+         precision (flag read by the harness through the public API, predicted by the as-is model
+         FloatToIeeeAsis.wide_class) debug builds panic on a debug assertion and release builds
+         round twice; outside the class the answers are compared between the builds *)
+      let b = n 0 and m = mode_of (arg 1) in
+      let (s, e) = fnormalize b (a 3) (a 4) in
+      let pow2 = Zar.equal b (zi 2) || Zar.equal b (zi 8) || Zar.equal b (zi 16) in
+      let w64 = (not pow2) && wide_class (zi 53) MHalfEven b s e and w32 = (not pow2) && wide_class (zi 24) m b s e in
+      match got with
+      | [ "ok"; flags; a64; _; a32; _ ] when String.length flags = 7 && String.sub flags 0 5 = "wide=" ->
+          let g64 = flags.[5] = '1' and g32 = flags.[6] = '1' in
+          let fid = same (g64 = w64 && g32 = w32) in
+          if (a64 = "panic" && not g64) || (a32 = "panic" && not g32) then fail "no-panic-outside-the-class"
+          else if g64 || g32 then { (known "fbig_to_float_wide_significand" "debug=release") with extra = fid ^ " cls=f06" }
+          else { (skip "cross-config-only") with extra = "why=cross-config-only " ^ fid }
+      | _ -> fail "ok wide=XY f64 flag f32 flag")
+  | "qtof64" -> (
       (* conversions with debug assertions in their code (DESIGN 5.1 #13, #14): compared between the builds *)
       match got with
       | "ok" :: _ | "panic" :: _ -> skip "cross-config-only"
